@@ -2,6 +2,9 @@ package main
 
 import (
 	"fmt"
+	"strings"
+
+	sdk "github.com/cosmos/cosmos-sdk/types"
 )
 
 // C14: a registered executor-change plan replaces the sequencer safely and exactly once.
@@ -32,6 +35,135 @@ func genC14(seed uint64, tier string, outdir string) *Report {
 	if thorough {
 		nRandom = 2500
 	}
+	// the fixed scenarios first: their replays are the shortest
+	// (b) malformed registrations against a fixed state
+	{
+		st.caseID++
+		r := ve.Start(st.caseID, genesisOf(3, 2, VRec{1, 1, 1}), 3, 3)
+		ok := ve.userStrs(1, 2)
+		r.Do(TVOp{Kind: "begin", H: 1})
+		bad := []TVOp{
+			{Kind: "register", Pid: 0, PH: 5, Op: 2, Key: 2, Execs: ok},
+			{Kind: "register", Pid: 1, PH: 0, Op: 2, Key: 2, Execs: ok},
+			{Kind: "register", Pid: 1, PH: 5, Op: 0, Key: 2, Execs: ok},
+			{Kind: "register", Pid: 1, PH: 5, Op: 2, Key: 0, Execs: ok},
+			{Kind: "register", Pid: 1, PH: 5, Op: 2, Key: 2, Execs: []string{ve.E.User(1).Str, "notanaddress"}},
+			{Kind: "register", Pid: 1, PH: 5, Op: 2, Key: 2, Execs: ok}, // good
+			{Kind: "register", Pid: 2, PH: 5, Op: 3, Key: 3, Execs: ok}, // duplicate height
+			{Kind: "register", Pid: 2, PH: 6, Op: 3, Key: 3, Execs: ok}, // second plan, other height
+		}
+		want := []string{"ERR", "ERR", "ERR", "ERR", "ERR", "OK", "ERR", "OK"}
+		for i, o := range bad {
+			s := r.Do(o)
+			if s.Verdict != want[i] {
+				rep.Violate(Violation{Case: st.caseID, Step: len(r.Ops), What: fmt.Sprintf("registration %s: %s, want %s", o.String(), s.Verdict, want[i]), Sig: "C14:register-verdict", Ops: r.History(len(r.Ops))})
+			}
+		}
+		r.Do(TVOp{Kind: "end", H: 1})
+		for h := int64(2); h <= 7; h++ {
+			r.Do(TVOp{Kind: "begin", H: h})
+			r.Do(TVOp{Kind: "end", H: h})
+		}
+		st.finish(r, true, "registrations")
+	}
+
+	// (b1) malformed registrations, systematically: an undecodable executor address at EVERY
+	// position of executor lists of length 1..4 (the other entries valid, in lower- and
+	// upper-case spelling), every kind of undecodable string; malformed operator strings and
+	// consensus keys; each registration for its own height, then the blocks of the first
+	// heights are run: none of these plans may exist, and no end blocker may fail.
+	{
+		e := ve.E
+		u := func(i uint64) string { return e.User(i).Str }
+		wrongPrefix, err := sdk.Bech32ifyAddressBytes("init", e.User(2).Addr)
+		if err != nil {
+			panic(err)
+		}
+		mixed := strings.ToUpper(u(1)[:8]) + u(1)[8:]
+		badAddrs := []string{"", "notanaddress", wrongPrefix, mixed, u(3) + "x", e.ValOps[0].String(), " " + u(1)}
+		goodAddrs := []string{u(1), upperBech32(u(2)), u(4), upperBech32(u(5)), u(6)}
+		for n := 1; n <= 4; n++ {
+			for pos := 0; pos < n; pos++ {
+				st.caseID++
+				r := ve.Start(st.caseID, genesisOf(3, 2, VRec{1, 1, 1}), 3, 3)
+				r.Do(TVOp{Kind: "begin", H: 1})
+				for bi, bad := range badAddrs {
+					execs := make([]string, n)
+					for i := range execs {
+						execs[i] = goodAddrs[(i+bi)%len(goodAddrs)]
+					}
+					execs[pos] = bad
+					r.Do(TVOp{Kind: "register", Pid: 1, PH: uint64(2 + bi), Op: 2, Key: 2, Execs: execs})
+				}
+				r.Do(TVOp{Kind: "end", H: 1})
+				for h := int64(2); h <= 4; h++ {
+					r.Do(TVOp{Kind: "begin", H: h})
+					r.Do(TVOp{Kind: "end", H: h})
+				}
+				kind := ""
+				if n == 3 && pos == 0 {
+					kind = "undecodable executor address not in last position"
+				}
+				st.finish(r, true, kind)
+			}
+		}
+		// the other fields
+		accAsOp, err := sdk.Bech32ifyAddressBytes(sdk.GetConfig().GetBech32AccountAddrPrefix(), e.ValOps[1])
+		if err != nil {
+			panic(err)
+		}
+		op2 := e.ValOps[1].String()
+		st.caseID++
+		r := ve.Start(st.caseID, genesisOf(3, 2, VRec{1, 1, 1}), 3, 3)
+		r.Do(TVOp{Kind: "begin", H: 1})
+		h := uint64(2)
+		for _, bad := range []string{" ", "notavaloper", accAsOp, strings.ToUpper(op2[:10]) + op2[10:], op2 + "x", u(1)} {
+			r.Do(TVOp{Kind: "register", Pid: 1, PH: h, OpStr: bad, Key: 2, Execs: goodAddrs[:2]})
+			h++
+		}
+		for _, bad := range []string{" ", "{notjson", "{}", "null", `{"@type":"/not.a.registered.Type","key":"AAAA"}`, `"` + ve.keyJS[1] + `"`} {
+			r.Do(TVOp{Kind: "register", Pid: 1, PH: h, Op: 2, KeyStr: bad, Execs: goodAddrs[:2]})
+			h++
+		}
+		r.Do(TVOp{Kind: "register", Pid: 0, PH: h, Op: 2, Key: 2, Execs: goodAddrs[:2]})
+		r.Do(TVOp{Kind: "register", Pid: 1, PH: 0, Op: 2, Key: 2, Execs: goodAddrs[:2]})
+		// a decodable upper-case operator string and upper-case executors are fine: registered, applied
+		r.Do(TVOp{Kind: "register", Pid: 1, PH: 3, OpStr: strings.ToUpper(op2), Key: 2, Execs: []string{upperBech32(u(2)), u(4)}})
+		r.Do(TVOp{Kind: "end", H: 1})
+		for hh := int64(2); hh <= 4; hh++ {
+			r.Do(TVOp{Kind: "begin", H: hh})
+			r.Do(TVOp{Kind: "end", H: hh})
+		}
+		st.finish(r, true, "")
+	}
+
+	// (b2) block h executed twice by one process: first on a DISCARDED cache branch, then for
+	// real.  The plan registry is node memory, not store state; the real run must still apply
+	// the plan (fresh operator, fresh key, room below the cap: the good situation).
+	for variant := 0; variant < 3; variant++ {
+		st.caseID++
+		r := ve.Start(st.caseID, genesisOf(3, 2, VRec{1, 1, 1}), 3, 3)
+		r.Do(TVOp{Kind: "begin", H: 1})
+		r.Do(TVOp{Kind: "register", Pid: 1, PH: 2, Op: 2, Key: 2, Execs: ve.userStrs(4, 5)})
+		r.Do(TVOp{Kind: "end", H: 1})
+		for n := 0; n <= variant; n++ { // once, twice, three times discarded
+			r.Do(TVOp{Kind: "dryblock", H: 2})
+		}
+		r.Do(TVOp{Kind: "begin", H: 2})
+		if variant == 2 {
+			r.Do(TVOp{Kind: "add", Op: 3, Key: 3})
+		}
+		r.Do(TVOp{Kind: "end", H: 2})
+		r.Do(TVOp{Kind: "dryblock", H: 2}) // replaying the old height afterwards changes nothing either
+		r.Do(TVOp{Kind: "begin", H: 3})
+		r.Do(TVOp{Kind: "end", H: 3})
+		kind := ""
+		if variant == 0 {
+			kind = "plan height pre-executed on a discarded branch"
+		}
+		st.finish(r, true, kind)
+	}
+
 	good, total := 0, 0
 	sit := map[string]int{}
 	for k := 0; k < nRandom; k++ {
@@ -90,6 +222,11 @@ func genC14(seed uint64, tier string, outdir string) *Report {
 				if execs == nil {
 					execs = []string{}
 				}
+				if rg.Chance(20) && len(execs) > 0 { // the same plan with one undecodable executor: must be refused
+					bad := append([]string{}, execs...)
+					bad[rg.Intn(len(bad))] = []string{"", "notanaddress", ve.E.User(1).Str + "x", ve.E.ValOps[0].String()}[rg.Intn(4)]
+					r.Do(TVOp{Kind: "register", Pid: 2, PH: uint64(planH), Op: op, Key: key, Execs: bad})
+				}
 				s := r.Do(TVOp{Kind: "register", Pid: uint64(1 + rg.Intn(9)), PH: uint64(planH), Op: op, Key: key, Execs: execs})
 				registered = s.Verdict == "OK"
 				if rg.Chance(15) { // the same height again: must be refused
@@ -110,64 +247,6 @@ func genC14(seed uint64, tier string, outdir string) *Report {
 		}
 	}
 	rep.Notes = append(rep.Notes, fmt.Sprintf("plans executed: %d, of which %d in the good situation (fresh operator, fresh key, room below the cap) with the full C14 outcome; failing situations seen in the random stream: %v", total, good, sit))
-
-	// (b) malformed registrations against a fixed state
-	{
-		st.caseID++
-		r := ve.Start(st.caseID, genesisOf(3, 2, VRec{1, 1, 1}), 3, 3)
-		ok := ve.userStrs(1, 2)
-		r.Do(TVOp{Kind: "begin", H: 1})
-		bad := []TVOp{
-			{Kind: "register", Pid: 0, PH: 5, Op: 2, Key: 2, Execs: ok},
-			{Kind: "register", Pid: 1, PH: 0, Op: 2, Key: 2, Execs: ok},
-			{Kind: "register", Pid: 1, PH: 5, Op: 0, Key: 2, Execs: ok},
-			{Kind: "register", Pid: 1, PH: 5, Op: 2, Key: 0, Execs: ok},
-			{Kind: "register", Pid: 1, PH: 5, Op: 2, Key: 2, Execs: []string{ve.E.User(1).Str, "notanaddress"}},
-			{Kind: "register", Pid: 1, PH: 5, Op: 2, Key: 2, Execs: ok}, // good
-			{Kind: "register", Pid: 2, PH: 5, Op: 3, Key: 3, Execs: ok}, // duplicate height
-			{Kind: "register", Pid: 2, PH: 6, Op: 3, Key: 3, Execs: ok}, // second plan, other height
-		}
-		want := []string{"ERR", "ERR", "ERR", "ERR", "ERR", "OK", "ERR", "OK"}
-		for i, o := range bad {
-			s := r.Do(o)
-			if s.Verdict != want[i] {
-				rep.Violate(Violation{Case: st.caseID, Step: len(r.Ops), What: fmt.Sprintf("registration %s: %s, want %s", o.String(), s.Verdict, want[i]), Sig: "C14:register-verdict", Ops: r.History(len(r.Ops))})
-			}
-		}
-		r.Do(TVOp{Kind: "end", H: 1})
-		for h := int64(2); h <= 7; h++ {
-			r.Do(TVOp{Kind: "begin", H: h})
-			r.Do(TVOp{Kind: "end", H: h})
-		}
-		st.finish(r, true, "registrations")
-	}
-
-	// (b2) block h executed twice by one process: first on a DISCARDED cache branch, then for
-	// real.  The plan registry is node memory, not store state; the real run must still apply
-	// the plan (fresh operator, fresh key, room below the cap: the good situation).
-	for variant := 0; variant < 3; variant++ {
-		st.caseID++
-		r := ve.Start(st.caseID, genesisOf(3, 2, VRec{1, 1, 1}), 3, 3)
-		r.Do(TVOp{Kind: "begin", H: 1})
-		r.Do(TVOp{Kind: "register", Pid: 1, PH: 2, Op: 2, Key: 2, Execs: ve.userStrs(4, 5)})
-		r.Do(TVOp{Kind: "end", H: 1})
-		for n := 0; n <= variant; n++ { // once, twice, three times discarded
-			r.Do(TVOp{Kind: "dryblock", H: 2})
-		}
-		r.Do(TVOp{Kind: "begin", H: 2})
-		if variant == 2 {
-			r.Do(TVOp{Kind: "add", Op: 3, Key: 3})
-		}
-		r.Do(TVOp{Kind: "end", H: 2})
-		r.Do(TVOp{Kind: "dryblock", H: 2}) // replaying the old height afterwards changes nothing either
-		r.Do(TVOp{Kind: "begin", H: 3})
-		r.Do(TVOp{Kind: "end", H: 3})
-		kind := ""
-		if variant == 0 {
-			kind = "plan height pre-executed on a discarded branch"
-		}
-		st.finish(r, true, kind)
-	}
 
 	// (c) known findings, replayed every run
 	type known struct {
